@@ -4,6 +4,7 @@ import TongoProofs.Lemmas.TlbCanon
 import TongoProofs.Lemmas.TlbChain
 import TongoProofs.Lemmas.TlbOpBody
 import TongoProofs.Lemmas.TlbBitsRefine
+import TongoProofs.Lemmas.TlbNoPanic
 import TongoGen.TlbTypes
 import TongoGen.AbiOpcodes
 import TongoGen.IntTypes
@@ -516,6 +517,27 @@ example :
     (TongoGen.AbiOpcodes.inTable.byOp 0xf06c7567).map (·.1) = ["PaymentRequestResponse", "SubscriptionV2PaymentConfirmed"] ∧
     0xf06c7567 ∉ TongoGen.AbiOpcodes.inGood ∧ 0xd53276db ∈ TongoGen.AbiOpcodes.inGood := by
   decide +kernel
+
+/-! ## The encoder never panics (values outside `inDom` included) -/
+
+/-- **marshal_no_panic** — `tlb.Marshal` of ANY value of ANY descriptor into any cell under construction returns a
+cell or an error, never a panic: no domain condition, no well-formedness condition. The values `inDom` excludes are
+covered here: a nil pointer where the schema is not optional (also a nil pointer to a type with a value-receiver
+`MarshalTLB`, which the Go encoder called through the nil pointer before the `fix:`), a `MsgAddress` whose selected
+payload pointer is nil, a `VmCellSlice` without its cell, values of the wrong shape, dictionaries whose value codec
+fails. (By induction on the fuel over the four mutually recursive encoders; C05's `Hashmap.marshal` panics only if the
+value codec does.) -/
+theorem marshal_no_panic (env : Env) (fuel : Nat) (T : Ty) (v : Val) (b : Builder) (p : String) :
+    encode env fuel T v b ≠ .panic p :=
+  ((NPInv.all env fuel).enc T v b).ne p
+
+/-- the case the audit named (TEST on literals): a struct with a NIL pointer to a marshaler type in a plain field, a
+MsgAddress with SumType AddrExtern and no payload: errors -/
+example :
+    (encode (fun _ => none) 6 (.struct (.cons "A" .plain (.uint 32) (.cons "P" .plain (.ptr true (.prim .msgAddress)) .nil)))
+      (Val.list [.int 1, .none]) Builder.empty).isErr = true ∧
+    (encode (fun _ => none) 6 (.prim .msgAddress) (Val.ctor "AddrExtern" .none) Builder.empty).isErr = true := by
+  decide
 
 /-! ## The layering: the ideal level of this model refines C06's specification of `boc.BitString`
 
